@@ -126,6 +126,10 @@ func GetBreakpoint(node any) (int, error) {
 			if ppl.LineFormat != nil {
 				return i, nil
 			}
+			// the ClickHouse planner has no label_format stage: run it (and what follows) in-process
+			if ppl.LabelFormat != nil {
+				return i, nil
+			}
 		}
 		return BreakpointNo, nil
 	}
